@@ -12,9 +12,9 @@ LEVEL = "exploration"
 RULE = (
     "cases = generator configurations: kind in {ODE, stationary d=1,2,3, space-time d=1,2 (both product modes)}, PRNG "
     "key, box / time interval with negative, non-unit, tiny and large bounds (dyadic), point counts 1..200 (2-D grid: "
-    "perfect squares), batch sizes <= counts, nb in 4N, method uniform / grid, and a history of get_batch calls "
+    "perfect squares), batch sizes <= counts, nb in 4N (and, 1 case in 2, nb = 4N+1..3: must be refused with ValueError or stored exactly), method uniform / grid, and a history of get_batch calls "
     "spanning 1..3 epochs; run in float32 (library default) and in x64 in separate sub-checks. The grid method is also "
-    "enumerated exhaustively over nt,n in 1..120 (quick) / 1..300 (thorough) x 8 intervals. Validity predicate: stored "
+    "enumerated exhaustively over nt,n in 1..120 (quick) / 1..300 (thorough) x 8 intervals. Every requested 2-D border count nb in 1..24 / 1..64 is enumerated too (refused, or exactly nb points). Validity predicate: stored "
     "arrays have exactly the requested leading sizes; every batch has the declared shape; every coordinate lies in the "
     "closed interval (bounds cast to the array dtype); facet k of a border batch has coordinate k//2 equal to min (k "
     "even) / max (k odd), the other coordinate inside the box; the 1-D border is the pair (xmin, xmax). Non-trivial = "
@@ -62,8 +62,9 @@ def check_store(g, cfg):
                     return "1d-border-not-the-end-points", {"got": ob.tolist(), "want": want.tolist()}
             else:
                 fn = cfg["nb"] // 4
-                if ob.shape != (fn, 2, 4):
-                    return "stored-border-count", {"shape": list(ob.shape), "requested": [fn, 2, 4]}
+                if ob.shape != (fn, 2, 4) or 4 * ob.shape[0] != cfg["nb"]:
+                    return "stored-border-count", {"shape": list(ob.shape), "requested_nb": cfg["nb"],
+                                                   "stored_border_points": int(4 * ob.shape[0])}
                 r = check_facets(ob, cfg)
                 if r:
                     return r
@@ -164,7 +165,16 @@ def build(cfg):
 def run_case(case):
     cfg = case["cfg"]
     labels = [cfg["kind"], cfg["method"], f"d{cfg.get('dim', 0)}"]
-    g = build(cfg)
+    odd_nb = cfg["kind"] != "ode" and cfg.get("dim") == 2 and cfg.get("border") and cfg["nb"] % 4 != 0
+    if odd_nb:
+        # a border count that cannot be spread evenly over the 4 facets: either refused (ValueError) or stored exactly
+        try:
+            g = build(cfg)
+        except ValueError:
+            return ok(nontrivial=False, labels=labels + ["nb-not-multiple-of-4:refused"])
+        labels.append("nb-not-multiple-of-4:accepted")
+    else:
+        g = build(cfg)
     r = check_store(g, cfg)
     if r:
         return fail(r[0], dict(r[1], cfg=cfg["kind"]), labels=labels)
@@ -223,7 +233,7 @@ def strat():
             cfg["b"] = draw(st.integers(1, min(n, 12)))
             cfg["border"] = d <= 2 and draw(st.booleans())
             fn = draw(st.integers(1, 10))
-            cfg["nb"] = 4 * fn if d == 2 else 2
+            cfg["nb"] = (4 * fn + draw(st.sampled_from([0, 0, 0, 1, 2, 3]))) if d == 2 else 2
             cfg["bb"] = draw(st.integers(1, fn)) if d == 2 else 2
             if kind == "nonstatio":
                 cfg["cartesian"] = draw(st.booleans())
@@ -287,6 +297,39 @@ def run_grid(case):
     return ok(nontrivial=True, labels=["grid-block"], count=len(case["ns"]))
 
 
+def enum_border_counts(tier):
+    nmax = 24 if tier == "quick" else 64
+    for kind in ("statio", "nonstatio"):
+        for method in ("uniform", "grid"):
+            for blk in range(0, nmax, 8):
+                yield {"kind": kind, "method": method, "nbs": list(range(blk + 1, blk + 9))}
+
+
+def run_border_counts(case):
+    """Every requested 2-D border count nb: refused with ValueError, or exactly nb border points stored and served."""
+    import jax
+    import jinns
+
+    k = jax.random.PRNGKey(3)
+    accepted = 0
+    for nb in case["nbs"]:
+        kw = dict(key=k, n=9, nb=nb, omega_batch_size=3, omega_border_batch_size=1, dim=2, min_pts=(-1.0, 0.5), max_pts=(2.0, 0.75),
+                  method=case["method"])
+        try:
+            if case["kind"] == "statio":
+                g = jinns.data.CubicMeshPDEStatio(**kw)
+            else:
+                g = jinns.data.CubicMeshPDENonStatio(nt=4, temporal_batch_size=1, tmin=0.0, tmax=1.0, **kw)
+        except ValueError:
+            continue
+        accepted += 1
+        ob = np.asarray(g.omega_border)
+        if ob.ndim != 3 or ob.shape[1:] != (2, 4) or 4 * ob.shape[0] != nb:
+            return fail("stored-border-count", {"shape": list(ob.shape), "requested_nb": nb, "kind": case["kind"],
+                                                "method": case["method"]}, labels=["border-count"])
+    return ok(nontrivial=True, labels=["border-count-block", f"accepted-{accepted}"], count=len(case["nbs"]))
+
+
 def _mk(x64):
     suf = "x64" if x64 else "f32"
     return [
@@ -301,4 +344,8 @@ def _mk(x64):
 
 
 def subchecks():
-    return _mk(False) + _mk(True)
+    return _mk(False) + _mk(True) + [
+        SubCheck(name="border_count_refused_or_exact", mode="enum", enumerate=enum_border_counts, run_case=run_border_counts,
+                 x64=False, shards={"quick": 4, "thorough": 8}, clear_every=8,
+                 doc="every requested 2-D border count 1..24 (quick) / 1..64 (thorough): refused with ValueError or stored exactly"),
+    ]
